@@ -47,6 +47,14 @@ CHECKS = {
             "TLC checks the transcribed grid generator (Grid.tla: count, distinctness, L1 bound, minimal n_units, injective basis map, selection rule) for every dim x sign pattern x grid_size; real GridSearch.fit with an exact learner is checked against TLC's exact payoff table of the whole hypothesis class",
             "property tier: lambda_vecs_ has grid_size distinct non-negative columns with L1 <= grid_limit; each predictor attains min_h error + lambda.gamma on the exact table (weighted group loss for BoundedGroupLoss); objectives_/gammas_ equal the table entries of the predictor's actual predictions; learner calls carry the relabel/reweight of their column in column order; best_idx_ minimises the trade-off; predict/predict_proba delegate. Refinement tier: the real _GridGenerator's integer lattice equals Grid.tla's for every enumerated configuration",
             "float multipliers: inequalities in float64 (1e-9) over exact table data; datasets where no event is shared by two groups (no free constraint direction) and grid points with all-zero weights are skipped as preconditions and listed in the evidence", "5/C09"),
+    "C08": (["Game.tla", "EG.tla", "EGTrace.tla", "Moments.tla"],
+            "TLC proves the certificate => guarantees theorem on a bounded family of rational games (Game.tla) and the early-stop/selection invariants on all bounded protocols (EG.tla); real EG fits with an exact learner are checked against TLC's exact payoff tables and every recorded iteration trace is validated by TLC against EGTrace.tla",
+            "for each fit: weights_ is a distribution over predictors_; the TRUE duality gap of the returned Q against the multiplier recorded for the returned iteration (min over the whole hypothesis class on the exact table) is <= best_gap_; error(Q) <= OPT + 2 best_gap_ (OPT by LP over the table) and each constraint <= bound + (1+2 best_gap_)/B when feasible; stopping before max_iter implies best_gap_ < nu; the trace (oracle results, Q_EG = Qsum/(t+1) exactly, EG/LP source by gap comparison, stop rule, last-minimum selection) is accepted by the trace spec",
+            "float64 inequalities (slack 1e-7) over exact table data; gaps as dense ranks; fits hitting the 0/0 weight normalisation (all-zero signed weights) are skipped and listed", "5/C08"),
+    "C10": (["Threshold.tla", "EG.tla", "Moments.tla"],
+            "models fitted on TLC-enumerated datasets (Threshold.tla Valid states; Moments.tla payoff-table states) are queried: pmf validity, dependence on (score, group) only, monotonicity without flip, EG pmf == mixture of predictors_ by id, support/determinism over seeds; frequency clause by a fixed-seed 6-sigma test",
+            "TLA+ states validity / functional dependence / id-alignment / support and determinism; every fitted ThresholdOptimizer (seeded configurations per Valid dataset) and every EG model of the C08 run is checked on scrambled query sets with duplicates; regression (BoundedGroupLoss, runs without the LP step whose weights_ index is not in id order) draws are matched to the predictors' own weights by output value",
+            "frequencies: 3000 replicated rows per query point, 6 sigma, fixed seeds (statistical clause outside TLC); label = [p >= U] is refinement tier only", "5/C10"),
 }
 
 PENDING_REASON = "check under construction in this session (DESIGN.md section 5 describes the planned TLA+ spec and binding); not yet claimed"
